@@ -524,6 +524,8 @@ def check(pid, tier):
                 stats["crashes"].append(dict(component="race-build", detail=outr[-1500:]))
             else:
                 for comp, nq, nt in prop["components"]:
+                    if comp not in prop.get("race_components", [c for c, _, _ in prop["components"]]):
+                        continue
                     try:
                         run_component(comp, (nt // 4) if thorough else prop.get("race_quick", 60), seed + 7717, "race", harness=HARNESS_RACE)
                         notes.append("race detector: %s ran under -race" % comp)
